@@ -17,7 +17,7 @@ from concurrent.futures import ThreadPoolExecutor
 from . import common, inproc, items
 from .common import Inconclusive
 
-ALPHABET = "{}:.*$01#+-<^>?xX _\"\\" + "é" + "ß" + "字" + "🦀" + "\u0301" + "\n"
+ALPHABET = "{}:.*$01#+-<^>?xX _\"\\" + "é" + "ß" + "字" + "🦀" + "\u0301" + "\n" + "\u2003" + "\u0085"  # incl. 3- and 2-byte Unicode whitespace (std skips it before `}`)
 
 BODIES = ["", "()", "(skip)", "(ignore)", "(forward)", "(owned)", "(ref)", "(ref_mut)", "(owned, ref, ref_mut)", "(owned(u8), ref(i8))", "(types(u8))", "(types(1))", "(types(\"u8\"))",
           "(\"lit\")", "(\"{}\", _0)", "(\"{x} {}\", x)", "(\"{_variant}\")", "(\"{_variant:?}\")", "(\"{}\", _variant)", "(bound(T: Copy))", "(bounds(T: Copy))", "(where(T: Copy))",
@@ -40,6 +40,9 @@ SHAPES = [
     "struct S<'a>(@F &'a str, @F &'a mut u8);", "struct S<const N: usize> where [(); N]: Sized;", "struct S<T>() where T: Copy;", "struct S<T> where T: Copy {}",
     "struct S<T>(@F T) where T: Copy, Vec<T>: Clone;", "struct S<T, const N: usize> where T: Copy { @F a: [T; N] }", "enum E<T> where T: Copy { @V A(@F T), @V B }",
     "enum E<const N: usize> where [(); N]: Sized {}", "struct S<'a, 'b: 'a, T: 'b + ?Sized>(@F &'a &'b T);", "struct S(@F fn(u8) -> u8, Box<dyn Fn(u8)>);", "struct S(@F (u8, (u16, u32)), [u8; 2]);", "enum E { A(@F <i32 as core::ops::Add>::Output) }",
+    # raw identifiers everywhere a derive builds a new identifier or a string from a name (unit-only enums for TryFrom/FromStr)
+    "enum E { @V r#type, @V r#match = 5, r#loop }", "#[repr(i8)] enum r#enum { @V r#type = -1, r#fn }", "struct r#struct { @F r#type: u8 }", "struct r#fn(@F u8, @F u16);",
+    "enum r#mod { @V r#type(@F u8), @V r#match { @F r#ref: u16 }, r#Self_ }",
 ]
 
 
